@@ -162,15 +162,30 @@ def sys_grand(arg):
 
     T = 800.0 if variant != "atomic_Tswitch" else 300.0
     molecular = variant == "molecular"
-    tmpl = Atoms("CO", positions=[[0, 0, 0], [0, 0, 1.13]]) if molecular else Atoms("Ar", positions=[[0, 0, 0]])
+    # (the template's bond points along (1,2,2)/3, not along a coordinate axis: a rotation law that is uniform only for
+    #  special template orientations is not uniform)
+    tmpl = Atoms("CO", positions=[[0, 0, 0], [1.13 / 3, 2.26 / 3, 2.26 / 3]]) if molecular else Atoms("Ar", positions=[[0, 0, 0]])
     cell = np.array([[9.0, 0, 0], [1.5, 8.0, 0], [0.5, -1.0, 10.0]])
     V = abs(np.linalg.det(cell))
     lam3 = thermal_wavelength(tmpl.get_masses().sum(), T) ** 3
     mu = kB * T * math.log(nbar * lam3 / V)
+    if variant == "atomic_accessible_rebuilt":
+        # the user declares only part of the cell accessible: the mean follows the accessible volume
+        V = 0.4 * V
+        mu = kB * T * math.log(nbar * lam3 / V)
     atoms = Atoms(cell=cell, pbc=True)
     atoms.calc = Zero()
     mc = GrandCanonical(atoms, exchange_atoms=tmpl, temperature=T, chemical_potential=mu, number_of_exchange_particles=0, max_cycles=1, seed=seed)
     mc.add_move(ExchangeMove(np.array([], dtype=int), TranslationRotation() if molecular else Translation()))
+    if variant == "atomic_accessible_rebuilt":
+        mc.accessible_volume = V
+        # ... and the long history contains a stop: the simulation is rebuilt from its dictionary and continued
+        from ase.io.jsonio import decode, encode
+
+        mc.run(n // 4)
+        mc = GrandCanonical.from_dict(decode(encode(mc.to_dict())))
+        atoms = mc.atoms
+        atoms.calc = Zero()
     k = len(tmpl)
     ns = np.empty(n)
     frac, cth, azi = [], [], []
@@ -251,8 +266,8 @@ def run(tier: str) -> int:
             for na in ((1, 4) if v == "isobaric" else (2,)):
                 for s in range(nseeds):
                     jobs.append(("isobaric", (f"{v}:N={na}", base + 17 * s + salt + 3, 2 * n * scale, v, na)))
-        for v in ("atomic", "molecular", "atomic_Tswitch"):
-            for nb in ((1.5, 4.0) if v != "atomic_Tswitch" else (4.0,)):
+        for v in ("atomic", "molecular", "atomic_Tswitch", "atomic_accessible_rebuilt"):
+            for nb in ((1.5, 4.0) if v in ("atomic", "molecular") else (4.0,)):
                 for s in range(nseeds):
                     jobs.append(("grand", (f"grand:{v}:Nbar={nb}", base + 17 * s + salt + 4, 3 * n * scale, v, nb)))
         return jobs
